@@ -839,7 +839,7 @@ def _is_obvious_ancestor(branch, start_rev_id, end_rev_id):
         elif (
             len(start_dotted) == 3
             and len(end_dotted) == 3
-            and start_dotted[0:1] == end_dotted[0:1]
+            and start_dotted[0:2] == end_dotted[0:2]
         ):
             # both on same development line
             return start_dotted[2] <= end_dotted[2]
